@@ -36,30 +36,36 @@ func (s *scope) lookup(varname string) string {
 	return ""
 }
 
-func (s *scope) pushForRange(loopVar string) (lVar, lLimit string) {
+// forRangeNames generates the JS names for a {for ... in range(...)} loop over
+// the given loop variable.  Nothing is bound yet: the loop's own expressions
+// belong to the enclosing scope.
+func (s *scope) forRangeNames(loopVar string) (lVar, lLimit string) {
 	s.n++
 	n := strconv.Itoa(s.n)
-	s.stack = append(s.stack, map[string]string{
-		loopVar:             loopVar + n,
-		loopVar + "__limit": loopVar + "Limit" + n,
-		loopVar + "__index": loopVar + n,
-	})
 	return loopVar + n,
 		loopVar + "Limit" + n
 }
 
-func (s *scope) pushForEach(loopVar string) (lVar, lList, lLen, lIndex string) {
+// forEachNames generates the JS names for a {foreach} loop over the given loop
+// variable.  Nothing is bound yet: the list expression belongs to the
+// enclosing scope.
+func (s *scope) forEachNames(loopVar string) (lVar, lList, lLen, lIndex string) {
 	s.n++
 	n := strconv.Itoa(s.n)
-	s.stack = append(s.stack, map[string]string{
-		loopVar:             loopVar + n,
-		loopVar + "__limit": loopVar + "Limit" + n,
-		loopVar + "__index": loopVar + "Index" + n,
-	})
 	return loopVar + n,
 		loopVar + "List" + n,
 		loopVar + "Limit" + n,
 		loopVar + "Index" + n
+}
+
+// pushLoop creates the scope of a loop body: the loop variable, and the loop's
+// limit and index under the variable's name (for isFirst, isLast and index).
+func (s *scope) pushLoop(loopVar, lVar, lLimit, lIndex string) {
+	s.stack = append(s.stack, map[string]string{
+		loopVar:             lVar,
+		loopVar + "__limit": lLimit,
+		loopVar + "__index": lIndex,
+	})
 }
 
 // looplimit returns the JS variable name for the limit of the loop that
